@@ -572,9 +572,10 @@ impl GlyphClosure for ContextFormat1<'_> {
                     } else if sequence_idx == 0 {
                         Some(IntSet::from([coverage.iter().nth(i).unwrap()]))
                     } else {
-                        Some(IntSet::from([rule.input_sequence()
-                            [sequence_idx as usize - 1]
-                            .get()]))
+                        let Some(glyph) = rule.input_sequence().get(sequence_idx as usize - 1) else {
+                            continue;
+                        };
+                        Some(IntSet::from([glyph.get()]))
                     };
                     ctx.add_todo(lookup_id, active_glyphs);
                 }
@@ -731,11 +732,10 @@ impl GlyphClosure for ContextFormat2<'_> {
                     } else if seq_idx == 0 {
                         Some(intersect_class(&classdef, &cur_glyphs, class_i))
                     } else {
-                        Some(intersect_class(
-                            &classdef,
-                            ctx.glyphs(),
-                            rule.input_sequence()[seq_idx as usize - 1].get(),
-                        ))
+                        let Some(class) = rule.input_sequence().get(seq_idx as usize - 1) else {
+                            continue;
+                        };
+                        Some(intersect_class(&classdef, ctx.glyphs(), class.get()))
                     };
 
                     ctx.add_todo(lookup_id, active_glyphs);
